@@ -31,6 +31,8 @@ let rec parse_ops t = match t with
   | "switch" :: a :: b :: r -> OSwitch (nat_s a, nat_s b) :: parse_ops r
   | "relink" :: x :: r -> ORelink (nat_s x) :: parse_ops r
   | "trav" :: o :: f :: x :: r -> OTrav (order_s o, nat_s f, nat_s x) :: parse_ops r
+  | "find" :: p :: n :: q :: r -> OFind (nat_s p, name_s n, z_of_int (int_of_string q)) :: parse_ops r
+  | "next" :: x :: n :: r -> ONext (nat_s x, name_s n) :: parse_ops r
   | "end" :: r -> OEnd :: parse_ops r
   | t :: _ -> failwith ("bad op " ^ t)
 
